@@ -57,6 +57,7 @@ struct Thr
   bool joined = false;
   uint64_t prio = 0;     // PCT
   uint64_t starve = 0;
+  uint64_t streak = 0;   // PCT: consecutive decisions while runnable
   uint32_t last_tag = 0;
   char name[24] = {0};
 };
@@ -229,13 +230,21 @@ void schedule(bool yielding = false)
         break;
       case sim::PCT:
       {
+        // a thread that keeps running without ever blocking (busy polling) decays to the lowest priority:
+        // real schedulers are fair, and strict priorities would starve everybody else behind a spinner
+        if (selfRunnable && ++th[self].streak > 300)
+        {
+          th[self].streak = 0;
+          th[self].prio = --pct_low;
+        }
         uint64_t bestp = 0;
         for (int k = 0; k < nc; k++)
           if (pick < 0 || th[cand[k]].prio > bestp) { bestp = th[cand[k]].prio; pick = cand[k]; }
         break;
       }
       case sim::RR:
-        if (selfRunnable) pick = self;
+        // non-preemptive baseline, except that a busy-polling thread is rotated out after a while (fairness)
+        if (selfRunnable && ++th[self].streak <= 300) pick = self;
         else
         {
           pick = cand[0];
@@ -269,6 +278,7 @@ void schedule(bool yielding = false)
       if (cand[k] != pick) th[cand[k]].starve++;
     th[pick].starve = 0;
     if (pick == self) return;
+    if (self >= 0) th[self].streak = 0;
     g_switches++;
     mix_ilv(((uint64_t)(self + 1) << 40) ^ ((uint64_t)(pick + 1) << 20) ^ (self >= 0 ? th[self].last_tag : 0));
     unpark(pick);
@@ -287,8 +297,19 @@ void thread_finish(int id)
 }
 void key_dtor(void* v)
 {
-  int id = (int)(intptr_t)v - 1;
+  // glibc runs the destructors of all keys round by round (PTHREAD_DESTRUCTOR_ITERATIONS = 4). Other libraries'
+  // per-thread cleanup (OpenSSL's thread-stop handler, ...) may sit on keys created after ours and take interposed
+  // locks; it must still run while this thread holds the baton. So re-arm our key for the first three rounds and
+  // finish the simulated thread only in the last one, after every other destructor has run.
+  intptr_t raw = (intptr_t)v;
+  int id = (int)(raw & 0xfffff) - 1;
+  int pass = (int)(raw >> 20);
   if (!g_active || id < 0) return;
+  if (pass < 3)
+  {
+    pthread_setspecific(g_key, (void*)(intptr_t)(((intptr_t)(pass + 1) << 20) | (raw & 0xfffff)));
+    return;
+  }
   thread_finish(id);
 }
 void* tramp(void* p)
@@ -373,9 +394,12 @@ uint64_t counter(const char* name)
   return it == g_counters.end() ? 0 : it->second;
 }
 
+static int g_trace = -1;
 void point(uint32_t tag)
 {
   if (!on()) return;
+  if (g_trace < 0) g_trace = getenv("SIMRT_TRACE") ? atoi(getenv("SIMRT_TRACE")) : 0;
+  if (g_trace && g_steps >= (uint64_t)g_trace && g_steps < (uint64_t)g_trace + 400) fprintf(stderr, "TRACE step=%llu t%d tag=%x now=%llu\n", (unsigned long long)g_steps, t_me, tag, (unsigned long long)(g_now - 1000000000000ull));
   g_steps++;
   g_now += cfg.step_ns;
   mix(tag);
@@ -924,6 +948,36 @@ int pthread_cond_destroy(pthread_cond_t* c)
   return 0;
 }
 
+// ---------------------------------------------------------------- callers whose lock traffic is not a scheduling point
+// OpenSSL 3 takes thousands of internal rwlocks per context/handshake. They are not part of any property; mutual exclusion is
+// still enforced (a contended lock blocks), only the voluntary scheduling points at lock/unlock/once are skipped when the
+// caller is libcrypto/libssl.
+#include <link.h>
+struct QuietRange { uintptr_t lo, hi; };
+static QuietRange g_quiet[8];
+static int g_nquiet = -1;
+static int quiet_cb(struct dl_phdr_info* info, size_t, void*)
+{
+  const char* n = info->dlpi_name ? info->dlpi_name : "";
+  if (!strstr(n, "libcrypto") && !strstr(n, "libssl")) return 0;
+  for (int i = 0; i < info->dlpi_phnum && g_nquiet < 8; i++)
+    if (info->dlpi_phdr[i].p_type == PT_LOAD && (info->dlpi_phdr[i].p_flags & PF_X))
+    {
+      g_quiet[g_nquiet].lo = info->dlpi_addr + info->dlpi_phdr[i].p_vaddr;
+      g_quiet[g_nquiet].hi = g_quiet[g_nquiet].lo + info->dlpi_phdr[i].p_memsz;
+      g_nquiet++;
+    }
+  return 0;
+}
+static inline bool quiet_caller(void* ra)
+{
+  if (g_nquiet < 0) { g_nquiet = 0; dl_iterate_phdr(quiet_cb, nullptr); }
+  uintptr_t a = (uintptr_t)ra;
+  for (int i = 0; i < g_nquiet; i++) if (a >= g_quiet[i].lo && a < g_quiet[i].hi) return true;
+  return false;
+}
+#define QPOINT(tag, ra) do { if (!quiet_caller(ra)) point(tag); } while (0)
+
 // ---------------------------------------------------------------- rwlock (side table)
 struct RW { int writer = -1; int readers = 0; };
 static std::map<const void*, RW>& rw_tab()
@@ -931,9 +985,9 @@ static std::map<const void*, RW>& rw_tab()
   static std::map<const void*, RW> t;
   return t;
 }
-static int rw_lock(pthread_rwlock_t* l, bool wr, uint64_t until, bool tryonly)
+static int rw_lock(pthread_rwlock_t* l, bool wr, uint64_t until, bool tryonly, void* ra)
 {
-  point(wr ? 0x501 : 0x500);
+  QPOINT(wr ? 0x501 : 0x500, ra);
   auto& tab = rw_tab();
   for (;;)
   {
@@ -954,49 +1008,49 @@ int pthread_rwlock_rdlock(pthread_rwlock_t* l)
 {
   SIM_REAL(int, pthread_rwlock_rdlock, pthread_rwlock_t*);
   if (!on()) return real(l);
-  return rw_lock(l, false, UINT64_MAX, false);
+  return rw_lock(l, false, UINT64_MAX, false, __builtin_return_address(0));
 }
 int pthread_rwlock_wrlock(pthread_rwlock_t* l)
 {
   SIM_REAL(int, pthread_rwlock_wrlock, pthread_rwlock_t*);
   if (!on()) return real(l);
-  return rw_lock(l, true, UINT64_MAX, false);
+  return rw_lock(l, true, UINT64_MAX, false, __builtin_return_address(0));
 }
 int pthread_rwlock_tryrdlock(pthread_rwlock_t* l)
 {
   SIM_REAL(int, pthread_rwlock_tryrdlock, pthread_rwlock_t*);
   if (!on()) return real(l);
-  return rw_lock(l, false, 0, true);
+  return rw_lock(l, false, 0, true, __builtin_return_address(0));
 }
 int pthread_rwlock_trywrlock(pthread_rwlock_t* l)
 {
   SIM_REAL(int, pthread_rwlock_trywrlock, pthread_rwlock_t*);
   if (!on()) return real(l);
-  return rw_lock(l, true, 0, true);
+  return rw_lock(l, true, 0, true, __builtin_return_address(0));
 }
 int pthread_rwlock_timedrdlock(pthread_rwlock_t* l, const timespec* ts)
 {
   SIM_REAL(int, pthread_rwlock_timedrdlock, pthread_rwlock_t*, const timespec*);
   if (!on()) return real(l, ts);
-  return rw_lock(l, false, abs_to_mono(CLOCK_REALTIME, ts), false);
+  return rw_lock(l, false, abs_to_mono(CLOCK_REALTIME, ts), false, __builtin_return_address(0));
 }
 int pthread_rwlock_timedwrlock(pthread_rwlock_t* l, const timespec* ts)
 {
   SIM_REAL(int, pthread_rwlock_timedwrlock, pthread_rwlock_t*, const timespec*);
   if (!on()) return real(l, ts);
-  return rw_lock(l, true, abs_to_mono(CLOCK_REALTIME, ts), false);
+  return rw_lock(l, true, abs_to_mono(CLOCK_REALTIME, ts), false, __builtin_return_address(0));
 }
 int pthread_rwlock_clockrdlock(pthread_rwlock_t* l, clockid_t k, const timespec* ts)
 {
   SIM_REAL(int, pthread_rwlock_clockrdlock, pthread_rwlock_t*, clockid_t, const timespec*);
   if (!on()) return real(l, k, ts);
-  return rw_lock(l, false, abs_to_mono(k, ts), false);
+  return rw_lock(l, false, abs_to_mono(k, ts), false, __builtin_return_address(0));
 }
 int pthread_rwlock_clockwrlock(pthread_rwlock_t* l, clockid_t k, const timespec* ts)
 {
   SIM_REAL(int, pthread_rwlock_clockwrlock, pthread_rwlock_t*, clockid_t, const timespec*);
   if (!on()) return real(l, k, ts);
-  return rw_lock(l, true, abs_to_mono(k, ts), false);
+  return rw_lock(l, true, abs_to_mono(k, ts), false, __builtin_return_address(0));
 }
 int pthread_rwlock_unlock(pthread_rwlock_t* l)
 {
@@ -1013,7 +1067,7 @@ int pthread_rwlock_unlock(pthread_rwlock_t* l)
   bool freeNow = r.writer < 0 && r.readers == 0;
   if (freeNow) tab.erase(it);
   wake_all(B_RW, l);
-  point(0x503);
+  QPOINT(0x503, __builtin_return_address(0));
   return 0;
 }
 int pthread_rwlock_destroy(pthread_rwlock_t* l)
@@ -1034,7 +1088,7 @@ int pthread_once(pthread_once_t* ctl, void (*fn)(void))
 {
   SIM_REAL(int, pthread_once, pthread_once_t*, void (*)(void));
   if (!on()) return real(ctl, fn);
-  point(0x520);
+  QPOINT(0x520, __builtin_return_address(0));
   auto& tab = once_tab();
   for (;;)
   {
